@@ -14,6 +14,7 @@ inductive Ev where
   | reloadCall (k : Nat) | reloadRet (k : Nat) (state : String)
   | stopCall (k : Nat) | stopDone (k : Nat) | cancel | inject (c : Nat) (o : Out) | yieldPt
   | snap (tag : String) (state : String) (running : List Nat)
+  | cbWait (done : Bool)      -- a callback that injected a child failure saw Run() return (or gave up waiting)
   deriving DecidableEq, Repr
 
 structure Child where
@@ -84,6 +85,9 @@ def isRealFail : Ev → Bool | .runRet _ _ .realErr => true | _ => false
 def holdsC10 (i : Info) (t : List Ev) : Bool :=
   let pre := t.takeWhile fun e => !isRet e
   let fails := pre.filterMap fun e => match e with | .runRet c _ .realErr => some c | _ => none
+  -- a failure propagates whenever it happens, also while a Reload() is parked in user code (its configuration
+  -- callback): Run() returns without waiting for the reload
+  (t.all fun e => match e with | .cbWait done => done | _ => true) &&
   -- the failure of a child of a Running composite propagates
   (match t.findIdx? isRealFail with
    | some k =>
